@@ -208,7 +208,9 @@ class SqlSetStream(Stream):
     def generate(self, rng, tier):
         n = 60 if tier == 'quick' else 400
         for k in range(n):
-            yield {'orders': [1], 'version': 0, 'hist': gen_history(rng, [1], 5), 'inside': k % 2 == 1}
+            h = gen_history(rng, [1], 6)
+            yield {'orders': [1], 'version': 0, 'hist': h, 'inside': k % 2 == 1,
+                   'who': [rng.choice([0, 1]) for _ in h] if k % 4 >= 2 else None}
 
     def emit(self, c):
         return RecordingStream().emit(c)
@@ -222,33 +224,39 @@ class SqlSetStream(Stream):
         eng = create_engine('sqlite://')
         ses = scoped_session(sessionmaker(bind=eng))
         st = SQLStorage(ses)
-        mset = SQLMigrationSet(st)
         ctl = Ctl()
-        orig = mset.migrations
-
-        def wrapped():
-            out = []
-            for m in orig():
-                up0, down0 = m.up, m.down
-
-                def up(m=m, up0=up0):
-                    ctl.step('up', m.order, mset.last_applied(), inside)
-                    try:
-                        up0()
-                    finally:
-                        ctl.armed = False
-
-                def down(m=m, down0=down0):
-                    ctl.step('down', m.order, mset.last_applied(), inside)
-                    try:
-                        down0()
-                    finally:
-                        ctl.armed = False
-                m.up, m.down = up, down
-                out.append(m)
-            return out
-        mset.migrations = wrapped
         inside = bool(c.get('inside'))
+
+        def recorded():
+            return SQLMigrationSet(st).last_applied()         # what the database says, read by a fresh set object
+
+        def driver():
+            mset = SQLMigrationSet(st)
+            orig = mset.migrations
+
+            def wrapped():
+                out = []
+                for m in orig():
+                    up0, down0 = m.up, m.down
+
+                    def up(m=m, up0=up0):
+                        ctl.step('up', m.order, recorded(), inside)
+                        try:
+                            up0()
+                        finally:
+                            ctl.armed = False
+
+                    def down(m=m, down0=down0):
+                        ctl.step('down', m.order, recorded(), inside)
+                        try:
+                            down0()
+                        finally:
+                            ctl.armed = False
+                    m.up, m.down = up, down
+                    out.append(m)
+                return out
+            mset.migrations = wrapped
+            return Migrator(mset)
         if inside:
             from sqlalchemy import event
 
@@ -257,20 +265,23 @@ class SqlSetStream(Stream):
                 if ctl.armed and statement.lstrip().upper().startswith(('CREATE TABLE', 'DROP TABLE')):
                     ctl.armed = False
                     raise StepFault('injected after the first DDL statement of the step')
-        mig = Migrator(mset)
+        # two long-lived drivers over one database: requests alternate between them
+        migs = [driver(), driver()]
+        who = c.get('who') or [0] * len(c['hist'])
         out, schema = [], []
-        for kind, number, fault in c['hist']:
+        for (kind, number, fault), w in zip(c['hist'], who):
+            mig = migs[w]
             ctl.begin(fault)
             try:
                 getattr(mig, kind)(number) if number is not None else getattr(mig, kind)()
                 s = 'ok'
             except StepFault:
                 s = 'raised'
-            out.append('%s v=%d %s' % (s, mset.last_applied(), ','.join(ctl.events)))
+            out.append('%s v=%d %s' % (s, recorded(), ','.join(ctl.events)))
             # after a request that was interrupted inside its DDL the schema is partial by construction
             if not (inside and s == 'raised') and not (inside and schema and schema[-1] is None and 'fail' not in out[-1]
                                                        and not ctl.events):
-                schema.append(('vakt_policies' in inspect(eng).get_table_names(), mset.last_applied()))
+                schema.append(('vakt_policies' in inspect(eng).get_table_names(), recorded()))
             else:
                 schema.append(None)
         ses.remove()
@@ -302,7 +313,8 @@ class MongoSetStream(Stream):
     case_type = 'mcase'
     run_fn = 'run_mig'
     rule = ('the Mongo migration set (four migrations) on the Mongo client double, driven through Migrator by request '
-            'histories with an exception injected into any step; compared: raised?, recorded version (read back from '
+            'histories with an exception injected into any step, half of them alternating between two long-lived '
+            'Migrator objects over the same database; compared: raised?, recorded version (read back from '
             'the version collection), steps run. non-trivial = history with a failing request')
 
     def generate(self, rng, tier):
@@ -311,7 +323,8 @@ class MongoSetStream(Stream):
             # whole-set requests only: the bodies of this set (index creation / removal) fail by themselves when a
             # by-number request has skipped a migration, which is the documented caveat of by-number requests
             h = [[k, None, f] for k, _n, f in gen_history(rng, [1, 2, 3, 4], 6)]
-            yield {'orders': [1, 2, 3, 4], 'version': 0, 'hist': h}
+            who = [rng.choice([0, 1]) for _ in h] if rng.random() < 0.5 else None
+            yield {'orders': [1, 2, 3, 4], 'version': 0, 'hist': h, 'who': who}
 
     def emit(self, c):
         return RecordingStream().emit(c)
@@ -321,29 +334,38 @@ class MongoSetStream(Stream):
         from vakt.storage.migration import Migrator
         from ..fakes.mongo_fake import FakeMongoClient
         st = MongoStorage(FakeMongoClient('4.2.1'), 'vakt_db')
-        mset = MongoMigrationSet(st)
         ctl = Ctl()
-        orig = mset.migrations
 
-        def wrapped():
-            out = []
-            for m in orig():
-                up0, down0 = m.up, m.down
+        def recorded():
+            return MongoMigrationSet(st).last_applied()       # what the version collection says, read by a fresh set
 
-                def up(m=m, up0=up0):
-                    ctl.step('up', m.order, mset.last_applied())
-                    up0()
+        def driver():
+            mset = MongoMigrationSet(st)
+            orig = mset.migrations
 
-                def down(m=m, down0=down0):
-                    ctl.step('down', m.order, mset.last_applied())
-                    down0()
-                m.up, m.down = up, down
-                out.append(m)
-            return out
-        mset.migrations = wrapped
-        mig = Migrator(mset)
+            def wrapped():
+                out = []
+                for m in orig():
+                    up0, down0 = m.up, m.down
+
+                    def up(m=m, up0=up0):
+                        ctl.step('up', m.order, recorded())
+                        up0()
+
+                    def down(m=m, down0=down0):
+                        ctl.step('down', m.order, recorded())
+                        down0()
+                    m.up, m.down = up, down
+                    out.append(m)
+                return out
+            mset.migrations = wrapped
+            return Migrator(mset)
+        # two long-lived drivers over one database (an application and an operator's shell): requests alternate
+        migs = [driver(), driver()]
+        who = c.get('who') or [0] * len(c['hist'])
         out = []
-        for kind, number, fault in c['hist']:
+        for (kind, number, fault), w in zip(c['hist'], who):
+            mig = migs[w]
             ctl.begin(fault)
             try:
                 getattr(mig, kind)(number) if number is not None else getattr(mig, kind)()
@@ -352,7 +374,7 @@ class MongoSetStream(Stream):
                 s_ = 'raised'
             except Exception as e:  # noqa
                 s_ = 'raised:' + type(e).__name__
-            out.append('%s v=%d %s' % (s_, mset.last_applied(), ','.join(ctl.events)))
+            out.append('%s v=%d %s' % (s_, recorded(), ','.join(ctl.events)))
         return ' | '.join(out)
 
     def oracle(self, c, obs):
